@@ -112,7 +112,7 @@ BaseLookup(reg, r) ==
 
 (* vftable::build.  Result [st, vft, region (or NoRegion), ins, why]       *)
 NoRegion == [name |-> "\n"]
-BuildVft(reg, ptr, p, vis, src, pend, own) ==   \* own = [has, funcs]
+BuildVft(reg, ptr, p, vis, src, pend, own, declared) ==   \* own = [has, funcs]; declared: the module declares an item of the generated name
   LET bi == FirstIdx(pend, LAMBDA x : x.reg.base)
       ins == IF own.has THEN <<<<VftPath(p), VftItem(reg, ptr, p, vis, src, own.funcs)>>>> ELSE <<>>
       reg2 == IF own.has THEN RegPut(reg, ins[1][1], ins[1][2]) ELSE reg
@@ -121,7 +121,7 @@ BuildVft(reg, ptr, p, vis, src, pend, own) ==   \* own = [has, funcs]
       bvf == bl.st = "ok" /\ bl.res.vft.has
       ptrTy == RCPtr(RRaw(VftPath(p)))
       R(st, vft, region, why) == [st |-> st, vft |-> vft, region |-> region, ins |-> ins, why |-> why]
-      collides == own.has /\ Has(reg, VftPath(p)) /\ reg[VftPath(p)] # ins[1][2]
+      collides == own.has /\ (declared \/ (Has(reg, VftPath(p)) /\ reg[VftPath(p)] # ins[1][2]))
   IN IF CHECKDUP /\ collides THEN [st |-> "fail", vft |-> NoVftRes, region |-> NoRegion, ins |-> <<>>, why |-> "vftable-name-collision"]
      ELSE IF bl.st = "fail" THEN R("fail", NoVftRes, NoRegion, bl.why)
      ELSE IF own.has THEN
@@ -140,16 +140,18 @@ BuildVft(reg, ptr, p, vis, src, pend, own) ==   \* own = [has, funcs]
      ELSE R("ok", NoVftRes, NoRegion, "")
 
 (* ------------------- associated functions (C07) ------------------------ *)
+(* the key under which a function name is recorded as taken: the Rust identifier it stands for *)
+UName(n) == IF CHECKNAMES THEN Plain(n) ELSE n
 (* add_functions: public functions of a base, renamed <field>_<name> when  *)
 (* the name is taken, forwarding to the base field                         *)
 RECURSIVE AddFuncs(_, _, _)
 AddFuncs(acc, bname, fs) ==   \* acc = [used, out]
   IF fs = <<>> THEN acc
   ELSE LET f == Head(fs)
-       IN IF f.vis # "pub" THEN AddFuncs(acc, bname, Tail(fs))
-          ELSE LET nm == IF f.name \in acc.used THEN bname \o "_" \o f.name ELSE f.name
+       IN IF f.vis # "pub" \/ (CHECKFWD /\ IsInternalFn(f)) THEN AddFuncs(acc, bname, Tail(fs))
+          ELSE LET nm == IF UName(f.name) \in acc.used THEN bname \o "_" \o Plain(f.name) ELSE f.name
                    g == [f EXCEPT !.name = nm, !.body = BodyField(bname, f.name)]
-               IN AddFuncs([used |-> acc.used \cup {nm}, out |-> Append(acc.out, g)],
+               IN AddFuncs([used |-> acc.used \cup {UName(nm)}, out |-> Append(acc.out, g)],
                            bname, Tail(fs))
 
 RECURSIVE InjectBases(_, _, _, _)
@@ -169,10 +171,10 @@ AddImpl(reg, scope, fs, acc) ==
   IF fs = <<>> \/ acc.st # "ok" THEN acc
   ELSE LET f == Head(fs)
            b == BuildFunction(reg, scope, FALSE, f)
-       IN IF f.name \in acc.used THEN [acc EXCEPT !.st = "fail", !.why = "duplicate-function"]
+       IN IF UName(f.name) \in acc.used THEN [acc EXCEPT !.st = "fail", !.why = "duplicate-function"]
           ELSE IF ~b.ok THEN [acc EXCEPT !.st = "fail", !.why = b.why]
           ELSE AddImpl(reg, scope, Tail(fs),
-                       [acc EXCEPT !.used = @ \cup {f.name}, !.out = Append(@, b.v)])
+                       [acc EXCEPT !.used = @ \cup {UName(f.name)}, !.out = Append(@, b.v)])
 
 (* ---------------------------- defaultable ------------------------------ *)
 RECURSIVE DefaultPath(_)
@@ -186,6 +188,14 @@ DefaultableProblem(reg, regions) ==
   \E i \in DOMAIN regions :
      LET pth == DefaultPath(regions[i].ty)
      IN pth = <<>> \/ (IsResolved(reg, pth) /\ ~ResDefaultable(reg[pth].res))
+
+(* derive(Copy) / derive(Clone) need every field to have them; checked for the types pyxis emits *)
+DeriveProblem(reg, regions, d) ==
+  (d.copyable \/ d.cloneable) /\
+  \E i \in DOMAIN regions :
+     LET pth == DefaultPath(regions[i].ty)
+     IN pth # <<>> /\ IsResolved(reg, pth) /\ reg[pth].cat \in {"def", "vft"}
+        /\ ((d.copyable /\ ~reg[pth].res.copyable) \/ ~reg[pth].res.cloneable)
 
 (* ------------------------------ alignment ------------------------------ *)
 RECURSIVE LcmSeq(_, _)
@@ -219,7 +229,9 @@ AttemptType(reg, ptr, m, src, p, d) ==
       baseUnresolved == fb # 0 /\ scan.pend[fb].reg.ty.k = "raw" /\ Has(reg, scan.pend[fb].reg.ty.p)
                         /\ ~IsResolved(reg, scan.pend[fb].reg.ty.p)
   IN IF baseUnresolved THEN Defer(<<>>) ELSE
-  LET bv == BuildVft(reg, ptr, p, d.vis, src, scan.pend, [has |-> d.vft.has, funcs |-> conv.v])
+  LET (* a declaration of the generated name in the module conflicts whatever its state of resolution *)
+      declared == CHECKNAMES /\ \E n \in Range(NamesOf(m.defs) \o NamesOf(m.exts)) : Plain(n) = Plain(d.name \o "Vftable")
+      bv == BuildVft(reg, ptr, p, d.vis, src, scan.pend, [has |-> d.vft.has, funcs |-> conv.v], declared)
       reg2 == IF bv.ins = <<>> THEN reg ELSE RegPut(reg, bv.ins[1][1], bv.ins[1][2])
       acc0 == [st |-> "ok", regions |-> <<>>, last |-> 0, why |-> ""]
       acc1 == IF bv.st = "ok" /\ bv.region # NoRegion THEN PushRegion(reg2, ptr, acc0, bv.region) ELSE acc0
@@ -233,7 +245,11 @@ AttemptType(reg, ptr, m, src, p, d) ==
   ELSE
   LET regions == NameRegions(reg2, ptr, acc3.regions, 0, <<>>)
       size == acc3.last
-      usedV == IF bv.vft.has THEN {bv.vft.funcs[i].name : i \in DOMAIN bv.vft.funcs} ELSE {}
+      usedF == IF bv.vft.has THEN {UName(bv.vft.funcs[i].name) : i \in DOMAIN bv.vft.funcs} ELSE {}
+      (* the generated accessors are functions of the type as well *)
+      accessors == IF CHECKNAMES THEN (IF bv.vft.has THEN {"vftable"} ELSE {}) \cup (IF IsSome(d.singleton) THEN {"get"} ELSE {})
+                   ELSE {}
+      usedV == usedF \cup accessors
       inj == InjectBases(reg2, SelectSeq(regions, LAMBDA r : r.base), 0,
                          [st |-> "ok", used |-> usedV, out |-> <<>>, why |-> ""])
       imp == AddImpl(reg2, scope, ImplFuncs(m, d.name), inj)
@@ -245,9 +261,12 @@ AttemptType(reg, ptr, m, src, p, d) ==
       required == LcmSeq(ralign, 1)
   IN
   IF IsSome(d.size) /\ size # d.size THEN FailA("size-mismatch", bv.ins)
+  ELSE IF CHECKNAMES /\ HasDupNames(NamesOf(regions)) THEN FailA("duplicate-field", bv.ins)
+  ELSE IF usedF \cap accessors # {} THEN FailA("vfunc-named-like-accessor", bv.ins)
   ELSE IF inj.st = "fail" THEN FailA(inj.why, bv.ins)
   ELSE IF imp.st = "fail" THEN FailA(imp.why, bv.ins)
   ELSE IF d.defaultable /\ DefaultableProblem(reg2, regions) THEN FailA("not-defaultable", bv.ins)
+  ELSE IF CHECKDERIVE /\ DeriveProblem(reg2, regions, d) THEN FailA("not-copyable", bv.ins)
   ELSE IF d.packed /\ IsSome(d.align) THEN FailA("packed-and-align", bv.ins)
   ELSE IF ~d.packed /\ CHECKPOW2 /\ ~IsPow2(alignment) THEN FailA("align-not-pow2", bv.ins)
   ELSE IF ~d.packed /\ required > alignment THEN FailA("align-below-required", bv.ins)
@@ -300,7 +319,9 @@ AttemptEnum(reg, ptr, m, p, d) ==
      ELSE IF CHECKENUMBASE /\ ~isInt THEN FailA("enum-base-not-integer", <<>>)
      ELSE IF size = None THEN Defer(<<>>)
      ELSE IF HasRawValue(d.vars) THEN FailA("unsupported-enum-value", <<>>)
+     ELSE IF CHECKNAMES /\ HasDupNames(NamesOf(d.vars)) THEN FailA("duplicate-variant", <<>>)
      ELSE IF Cardinality(marks) > 1 THEN FailA("multiple-default", <<>>)
+     ELSE IF CHECKEMPTYENUM /\ d.vars = <<>> THEN FailA("empty-enum", <<>>)
      ELSE IF d.defaultable /\ marks = {} THEN FailA("defaultable-without-default", <<>>)
      ELSE IF ~d.defaultable /\ marks # {} THEN FailA("default-without-defaultable", <<>>)
      ELSE IF counterOverflow THEN FailA("discriminant-overflow", <<>>)
